@@ -250,6 +250,18 @@ func c18Run(sigChoice bool, timerSignal bool) {
 		}
 	}
 	auditCache("C18.I3")
+	// ... and an entry recorded around the interrupt lists every declared output of its target (no
+	// "successful" result assembled from the outputs that happened to be written before the signal)
+	trc := caching.NewTargetResultCache(be)
+	for _, t := range g.targets {
+		if t.ChangeHash == "" {
+			continue
+		}
+		if ok, _ := be.Exists(context.Background(), "target", t.ChangeHash); ok {
+			tr, lerr := trc.Load(context.Background(), t.ChangeHash)
+			sym.Assert(lerr == nil && tr != nil && len(tr.Outputs) == len(t.AllOutputs()), "C18.I3.recorded-entry-lists-every-declared-output")
+		}
+	}
 
 	// I4: the next build on the same workspace (fresh process, no signal) succeeds and equals a clean build
 	if !signalled {
